@@ -190,6 +190,10 @@ func main() {
 			for _, w := range []string{"IN", "NI", "INN", "IFN", "IBN", "NIF", "ISN"} {
 				mk([]string{w}, pool, idle, 1)
 			}
+			// a handle kept past its firing and cancelled late (a documented no-op) after later, unrelated Calls
+			for _, w := range []string{"NGNX", "NSNX", "BGNX", "NGNXN", "NGFX", "ZNX"} {
+				mk([]string{w}, pool, idle, 1)
+			}
 			mk([]string{"I", "N"}, pool, idle, 1)
 			mk([]string{"IN", "N"}, pool, idle, 1)
 		}
